@@ -94,7 +94,57 @@ def check_c01_c05(prop, tier, seed):
     if inplace:
         check_c05_mutated_current_value(b, rng, tier)
         check_c05_integer_array_setitem(b, rng, tier)
+    check_index_array_ownership(b, rng, prop)
     return b
+
+
+def check_index_array_ownership(b, rng, prop):
+    """The index of x[idx] / x[idx] = y is part of the RECORDED computation: if the caller changes the index array (or list) afterwards,
+    backward() must still differentiate what was computed.  C01: getitem; C05: setitem."""
+    for kind in (("getitem",) if prop == "C01" else ("setitem", "setitem-view")):
+        for container in ("int-array", "bool-array", "list", "tuple-of-arrays"):
+            xv = rng.uniform(1, 2, size=(5,))
+            x0 = mg.tensor(xv.copy())
+            x = x0 * 1.0
+            w = np.array([1.0, 2.0, 3.0, 4.0, 5.0])
+            if container == "int-array":
+                idx = np.array([0, 1]); alt = np.array([3, 4])
+            elif container == "bool-array":
+                idx = np.array([True, True, False, False, False]); alt = np.array([False, False, False, True, True])
+            elif container == "list":
+                idx = [0, 1]; alt = [3, 4]
+            else:
+                idx = (np.array([0, 1]),); alt = (np.array([3, 4]),)
+            desc = dict(statement=kind, index=container, then="the caller overwrites the index object before backward()")
+            b.count("index object owned by the recorded operation")
+            try:
+                if kind == "getitem":
+                    y = x[idx]
+                    L = (y * np.array([10.0, 20.0])).sum() + (x * w).sum()
+                    exp_x = w.copy(); exp_x[[0, 1]] += np.array([10.0, 20.0])
+                    exp_y = None
+                else:
+                    yv = mg.tensor(np.array([7.0, 8.0]))
+                    tgt = x[...] if kind == "setitem-view" else x
+                    tgt[idx] = yv
+                    L = (x * w).sum()
+                    exp_x = w.copy(); exp_x[[0, 1]] = 0.0
+                    exp_y = w[[0, 1]]
+                # the caller re-uses its index object for something else
+                if container in ("int-array", "bool-array"):
+                    idx[...] = alt
+                elif container == "list":
+                    idx[:] = alt
+                else:
+                    idx[0][...] = alt[0]
+                L.backward()
+            except Exception as e:
+                b.fail(f"{prop}.bounded.index_object_aliased", desc, f"{type(e).__name__}: {e}")
+                continue
+            ok = x0.grad is not None and np.allclose(x0.grad, exp_x) and (exp_y is None or (yv.grad is not None and np.allclose(yv.grad, exp_y)))
+            if not ok:
+                b.fail(f"{prop}.bounded.index_object_aliased", desc, f"x.grad = {None if x0.grad is None else x0.grad.tolist()}, expected {exp_x.tolist()}" + ("" if exp_y is None else f"; y.grad = {None if yv.grad is None else yv.grad.tolist()}, expected {exp_y.tolist()}"))
+            b.case(desc)
 
 
 def check_c05_integer_array_setitem(b, rng, tier):
